@@ -554,6 +554,9 @@ def replay_model(reg, unit, ob):
     eng = unit.get("engine")
     if eng == "rxvc":
         return replay_rx(unit, ob)
+    if eng == "fxvc":
+        from . import native_frames
+        return native_frames.replay(unit["name"], ob["name"])
     if eng != "pyvc" or not ob.get("model"):
         return False, "no native replay for this kind of obligation"
     c = reg.by_name(unit["name"])
